@@ -225,6 +225,11 @@ def engine_scenarios(tier, seed):
     scale("fanin_%d" % w, ["b"] + ["a"] * w + ["a"], [[]] + [[1]] * w + [list(range(2, w + 2))], [w + 2])
     scale("chain_150", ["b"] * 150, [[]] + [[i] for i in range(1, 150)], [150])
     scale("fanout_150", ["b"] * 150 + ["a"], [[] for _ in range(150)] + [list(range(1, 151))], [151])
+    # the same wide graph with a signal after 4 s: it has long finished by then unless relay and actors are wedged,
+    # in which case the signal must still be honoured (C10)
+    sc[-3] = dict(sc[-3])
+    c2 = dict(sc[-3]["cfg"], id="bbs_fanin_sig")
+    sc.append(dict(sc[-3], name="scale_fanin_sig", cfg=c2, actions=[(4.0, "TERM")], timeout=25))
     if not quick:
         scale("lattice", ["b"] * 64, [[j for j in (i - 8, i - 1) if j >= 1 and (j != i - 1 or (i - 1) % 8 != 0)] for i in range(1, 65)], [64])
         scale("roots_50", ["b"] * 50, [[] for _ in range(50)], list(range(1, 51)))
@@ -235,7 +240,48 @@ def engine_scenarios(tier, seed):
                    "cfg": dict(gen_configs.finish({"n": 2, "kind": ["b", "b"], "deps": [[], [1]], "roots": [2], "watch": True}, 900 + rep_),
                                id="bbw%d" % rep_, inh=[[], [1]]),
                    "bodies": {}, "actions": []})
+    # watch mode: setting up the watcher of a later root fails (a 300-character path component): zinoma must exit with an
+    # error and leave nothing behind of the roots it had already started
+    sc.append({"type": "watchfail", "name": "watch_root_setup_failure",
+               "cfg": dict(gen_configs.finish({"n": 3, "kind": ["s", "b", "b"], "deps": [[], [], []], "roots": [1, 2, 3], "watch": True}, 990),
+                           id="bbwf"), "bodies": {}, "actions": []})
     return sc
+
+
+WATCHFAIL_YAML = """targets:
+  t1:
+    service: exec sleep 600
+  t2:
+    build: exec sleep 600
+  t3:
+    input:
+      - paths: ['%s/x']
+    build: 'true'
+"""
+
+
+def run_watchfail_scenario(s):
+    d = os.path.join(CACHE, "scratch", "bb_" + s["cfg"]["id"])
+    shutil.rmtree(d, ignore_errors=True)
+    os.makedirs(d)
+    open(os.path.join(d, "zinoma.yml"), "w").write(WATCHFAIL_YAML % ("n" * 300))
+    trace = d + ".ndjson"
+    if os.path.exists(trace):
+        os.unlink(trace)
+    r = run_zinoma(d, ["--watch", "t1", "t2", "t3"], trace, timeout=15)
+    lines = [l for l in open(trace).read().splitlines() if l.strip()] if os.path.exists(trace) else []
+    # only the process-level facts are folded (the engine never reached its loop)
+    raw = [json.dumps({"ev": "cfg", "t": s["cfg"]["id"], "cfg": dict(s["cfg"], scale=True)})]
+    raw += [l for l in lines if '"svc_st' in l or '"build_spawned"' in l or '"build_reaped"' in l]
+    if r["timed_out"]:
+        raw.append(json.dumps({"ev": "h_stall", "t": ""}))
+    else:
+        raw.append(json.dumps({"ev": "h_proc", "t": "", "alive": len(r["leftovers"])}))
+    shutil.rmtree(d, ignore_errors=True)
+    if os.path.exists(trace):
+        os.unlink(trace)
+    return {"scenario": s, "raw": raw, "status": r["status"], "timed_out": r["timed_out"], "latency": r["latency"],
+            "leftovers": r["leftovers"], "stderr_tail": r["err"][-600:], "names_ok": True}
 
 
 WATCH_YAML = """targets:
@@ -334,6 +380,8 @@ def run_watch_scenario(s):
 def run_engine_scenario(s):
     if s.get("type") == "watchconv":
         return run_watch_scenario(s)
+    if s.get("type") == "watchfail":
+        return run_watchfail_scenario(s)
     d = os.path.join(CACHE, "scratch", "bb_" + s["cfg"]["id"])
     make_project(d, s["cfg"], s["bodies"])
     trace = d + ".ndjson"
